@@ -61,6 +61,11 @@ class Prop:
                     elif rng.random() < 0.1:
                         # the shortest sentences there are: hardly any payload, no sequence id
                         one = gen.sentence('AIVDM', 1, 1, '', rng.choice('AB'), rng.choice(['', '0', '1P']), 0)
+                    elif rng.random() < 0.15:
+                        # the sentence formatter is not case sensitive for the factory: neither may it be for any reader
+                        tk = rng.choice(['AIvdm', 'aivdm', 'AIVdo', 'aiVDM', 'BSvdm', 'abvdo'])
+                        one = gen.render(gen.payload_bits(rng, rng.choice(['MessageType1', 'MessageType18'])), talker=tk,
+                                         chan=rng.choice('AB'))[0]
                     parts.append([one])
                 elif r < 0.6:
                     n = rng.randint(2, 4)
@@ -92,7 +97,10 @@ class Prop:
                         lines[k] = lines[k][:lines[k].rindex(b'*')]
                     parts.append(lines)
                 elif r < 0.72:
-                    parts.append([gen.gatehouse(d=rng.choice([1, 28, 31]), mo=rng.choice([1, 2, 12]))])
+                    if rng.random() < 0.2:
+                        parts.append([gen.gatehouse(d=rng.choice([1, 28]), tag=rng.choice([b'PGhp', b'pghp', b'PGHp']))])
+                    else:
+                        parts.append([gen.gatehouse(d=rng.choice([1, 28, 31]), mo=rng.choice([1, 2, 12]))])
                 elif r < 0.84:
                     t = rng.randint(1, 3)
                     gid = rng.randint(1, 999)
